@@ -771,6 +771,11 @@ func execC06Flood(c C06Flood) *Failure {
 	if !stream.WaitReturned(Patience()) {
 		return TimingFailf("C06/stream-handler-stuck", "legacy: the stream handler did not return after the flooding peer left")
 	}
+	// its session ended with its stream: a message posted to that endpoint now cannot be served and is refused, whatever of the
+	// flood is still being worked off
+	if code := post(`{"jsonrpc":"2.0","id":"late","method":"ping"}`); code < 400 {
+		return Failf("C06/ended-session-served", "legacy: after the peer that queued %d %s requests had left and its stream handler had returned, a ping posted to its endpoint was acknowledged with HTTP %d", c.N, c.Body, code)
+	}
 	if d := WaitNoLeak(before, Patience()); len(d) > 0 {
 		return TimingFailf("C06/goroutine-leak/"+strings.SplitN(d[0], " (", 2)[0], "legacy: after a peer that queued %d %s requests without reading left, library goroutines remain: %v", c.N, c.Body, d)
 	}
